@@ -23,6 +23,7 @@ var c03Cfgs = map[string]c03Cfg{
 	"B": {"[[", "]]", "{*", "*}"},
 	"C": {"[[", "]]", "[*", "*]"},
 	"D": {"<%", "%>", "<#", "#>"},
+	"E": {"{{", "}}", "<!--", "-->"},
 }
 
 var c03Vars = func() jet.VarMap {
